@@ -1,3 +1,7 @@
 pub mod engine;
 pub mod gen;
 pub mod tree;
+pub mod ws_common;
+pub mod store;
+pub mod http;
+pub mod fault;
